@@ -2234,6 +2234,7 @@ private:
             situation_info root_situation_info{ root_rule_idx, 0, eof_idx };
             size32_t root_sit_idx = make_situation_idx(root_situation_info);
             state_count = 1;
+            compute_nterm_empty_and_first();
 
             size16_t current_state = 0;
             add_situation(current_state, root_sit_idx, true);
@@ -2303,6 +2304,63 @@ private:
                     add_situation(state_idx, new_sit_idx, false);
                     closures[sit_idx].push_back(new_sit_idx);
                 }
+            }
+        }
+
+        constexpr void compute_nterm_empty_and_first()
+        {
+            bool changed = true;
+            while (changed)
+            {
+                changed = false;
+                for (size16_t r = 0; r < rule_count; ++r)
+                {
+                    const rule_info& ri = gi.rule_infos[r];
+                    if (nterm_empty.test(ri.l_idx))
+                        continue;
+                    bool all_empty = true;
+                    for (size_t i = 0; i < ri.r_elements && all_empty; ++i)
+                    {
+                        const symbol& s = gi.right_sides[ri.r_idx][i];
+                        all_empty = !s.term && nterm_empty.test(s.idx);
+                    }
+                    if (all_empty)
+                    {
+                        nterm_empty.set(ri.l_idx);
+                        changed = true;
+                    }
+                }
+            }
+
+            changed = true;
+            while (changed)
+            {
+                changed = false;
+                for (size16_t r = 0; r < rule_count; ++r)
+                {
+                    const rule_info& ri = gi.rule_infos[r];
+                    term_subset before = nterm_first[ri.l_idx];
+                    for (size_t i = 0; i < ri.r_elements; ++i)
+                    {
+                        const symbol& s = gi.right_sides[ri.r_idx][i];
+                        if (s.term)
+                        {
+                            nterm_first[ri.l_idx].set(s.idx);
+                            break;
+                        }
+                        nterm_first[ri.l_idx].add(nterm_first[s.idx]);
+                        if (!nterm_empty.test(s.idx))
+                            break;
+                    }
+                    if (!(before == nterm_first[ri.l_idx]))
+                        changed = true;
+                }
+            }
+
+            for (size16_t nt = 0; nt < nterm_count; ++nt)
+            {
+                nterm_empty_analyzed.set(nt);
+                nterm_first_analyzed.set(nt);
             }
         }
 
